@@ -8,6 +8,7 @@ and prunes again in that order for every censoring scenario, with the complete g
 boundary extensions agree ((start, len) on the same read; flank tables); the shard score is a permutation look-up,
 strand-symmetric in reverse-complement mode; the shard id is the rank of the canonical minimizer."""
 from .. import dt_graph, dt_tables, dt_compress, dt_msp
+from . import common
 
 ASSUMPTIONS = ["weakest claim of the set: only the listed mechanisms are decided, not the equality of the two resulting graphs"]
 
@@ -30,3 +31,5 @@ def run(F, rep):
     rep.run(dt_graph.find_link_table, F, rep, "C04.6")
     rep.run(dt_graph.get_valid_exts_table, F, rep, "C04.6")
     rep.run(dt_graph.fix_exts_table, F, rep, "C04.6")
+    # recombination looks nodes up by their terminal k-mers (views of the packed store) and reads shard pieces back as k-mers
+    rep.run(common.run_store_kmer_lemmas, F, rep, "C04.6")
